@@ -5,6 +5,7 @@ import (
 	"context"
 	"fmt"
 	"net/http"
+	"runtime"
 	"strings"
 	"time"
 
@@ -34,16 +35,57 @@ type c10Case struct {
 	Markers   bool   `json:"filters_write_output"`
 	CustomRec bool   `json:"custom_recover_handler"`
 	RouteEnc  bool   `json:"encoding_via_route_override"`
+	Value     string `json:"panic_value"` // ptr | string | error | runtime | abort (http.ErrAbortHandler)
 }
 
 type c10Env struct {
-	c      *restful.Container
-	recN   int
-	recVal interface{}
-	ledger *mon.Ledger
+	c       *restful.Container
+	recN    int
+	recVal  interface{}
+	ledger  *mon.Ledger
+	curLog  *wlog
+	curPos  string
+	lastErr error
+	kind    string
 }
 
-func c10Filter(name string, markers bool) restful.FilterFunction {
+// throw panics with a value of the configured kind.
+func (e *c10Env) throw(pos string) {
+	switch e.kind {
+	case "string":
+		panic("injected:" + pos)
+	case "error":
+		e.lastErr = fmt.Errorf("injected:%s", pos)
+		panic(e.lastErr)
+	case "runtime":
+		var m map[string]int
+		m[pos] = 1 // assignment to entry in nil map
+	case "abort":
+		panic(http.ErrAbortHandler)
+	}
+	panic(&c10Panic{e.curLog, pos})
+}
+
+// sameValue decides whether v is the value injected at pos.
+func (e *c10Env) sameValue(v interface{}, pos string) bool {
+	switch e.kind {
+	case "string":
+		s, ok := v.(string)
+		return ok && s == "injected:"+pos
+	case "error":
+		err, ok := v.(error)
+		return ok && err == e.lastErr
+	case "runtime":
+		_, ok := v.(runtime.Error)
+		return ok
+	case "abort":
+		return v == http.ErrAbortHandler
+	}
+	pv, ok := v.(*c10Panic)
+	return ok && pv.id == pos
+}
+
+func c10Filter(env *c10Env, name string, markers bool) restful.FilterFunction {
 	return func(req *restful.Request, resp *restful.Response, chain *restful.FilterChain) {
 		l := wlogOf(req.Request)
 		want := req.Request.Header.Get("X-Panic")
@@ -51,11 +93,11 @@ func c10Filter(name string, markers bool) restful.FilterFunction {
 			l.write(resp, []byte("["+name))
 		}
 		if want == name+":before" {
-			panic(&c10Panic{l, want})
+			env.throw(want)
 		}
 		chain.ProcessFilter(req, resp)
 		if want == name+":after" {
-			panic(&c10Panic{l, want})
+			env.throw(want)
 		}
 		if markers {
 			l.write(resp, []byte(name+"]"))
@@ -64,7 +106,7 @@ func c10Filter(name string, markers bool) restful.FilterFunction {
 }
 
 func buildC10(k *c10Case, inner restful.CompressorProvider) *c10Env {
-	env := &c10Env{}
+	env := &c10Env{kind: k.Value}
 	env.ledger = mon.NewLedger(inner)
 	restful.SetCompressorProvider(env.ledger)
 	c := restful.NewContainer()
@@ -76,51 +118,46 @@ func buildC10(k *c10Case, inner restful.CompressorProvider) *c10Env {
 			env.recN++
 			env.recVal = v
 			w.WriteHeader(500)
-			msg := []byte(fmt.Sprintf("RECOVERED:%v", v))
-			if pv, ok := v.(*c10Panic); ok {
-				pv.log.write(w, msg)
-			} else {
-				w.Write(msg)
-			}
+			env.curLog.write(w, []byte("RECOVERED:injected:"+env.curPos))
 		})
 	}
 	c.ServiceErrorHandler(func(err restful.ServiceError, req *restful.Request, resp *restful.Response) {
 		l := wlogOf(req.Request)
 		want := req.Request.Header.Get("X-Panic")
 		if want == "E:before" {
-			panic(&c10Panic{l, want})
+			env.throw(want)
 		}
 		resp.WriteHeader(err.Code)
 		l.write(resp, []byte("ERR:"+err.Message))
 		if want == "E:after" {
-			panic(&c10Panic{l, want})
+			env.throw(want)
 		}
 	})
-	c.Filter(c10Filter("C0", k.Markers))
-	c.Filter(c10Filter("C1", k.Markers))
+	c.Filter(c10Filter(env, "C0", k.Markers))
+	c.Filter(c10Filter(env, "C1", k.Markers))
 	ws := new(restful.WebService).Path("/p")
-	ws.Filter(c10Filter("S0", k.Markers))
-	ws.Filter(c10Filter("S1", k.Markers))
+	ws.Filter(c10Filter(env, "S0", k.Markers))
+	ws.Filter(c10Filter(env, "S1", k.Markers))
 	rb := ws.GET("/x").To(func(req *restful.Request, resp *restful.Response) {
 		l := wlogOf(req.Request)
 		want := req.Request.Header.Get("X-Panic")
 		if want == "H:before" {
-			panic(&c10Panic{l, want})
+			env.throw(want)
 		}
 		l.write(resp, []byte("payload-part-1;"))
 		if want == "H:between" {
-			panic(&c10Panic{l, want})
+			env.throw(want)
 		}
 		l.write(resp, bytes.Repeat([]byte("payload-part-2;"), 40))
 		if want == "H:after" {
-			panic(&c10Panic{l, want})
+			env.throw(want)
 		}
 	})
-	rb.Filter(c10Filter("R0", k.Markers))
-	rb.Filter(c10Filter("R1", k.Markers))
+	rb.Filter(c10Filter(env, "R0", k.Markers))
+	rb.Filter(c10Filter(env, "R1", k.Markers))
 	rb.If(func(r *http.Request) bool {
 		if r.Header.Get("X-Panic") == "cond:eval" {
-			panic(&c10Panic{wlogOf(r), "cond:eval"})
+			env.throw("cond:eval")
 		}
 		return true
 	})
@@ -152,6 +189,7 @@ func (e *c10Env) send(k *c10Case, path, panicAt string) *c10Resp {
 		req.Hdr["Accept-Encoding"] = k.Coding
 	}
 	l := &wlog{}
+	e.curLog, e.curPos = l, panicAt
 	hr := rt.HTTPRequest(&req, nil)
 	hr = hr.WithContext(context.WithValue(context.Background(), wlogKey{}, l))
 	rec := rt.NewRec()
@@ -186,7 +224,7 @@ func c10Positions() (routed, unrouted []string) {
 
 func c10(ctx *core.Ctx) {
 	quietLogs()
-	ctx.Rule("crash points enumerated completely: panic in each of 2 container / 2 service / 2 route filters before and after passing control, in the handler before / between / after its writes, in an If-condition, and (routing-failure request) in container filters and the custom error handler; x recovery {on, off} x coding {none, gzip, deflate} (container switch or route override) x provider {sync.Pool, bounded(1), custom} x entry {Dispatch, ServeHTTP} x filters writing output or not x custom/default recover handler. Monitors: recover() around the entry, recording RecoverHandler, compressor ledger, probe requests replayed after every panic, Add+Remove afterwards (needs the write lock). Then sequences of 20 mixed panicking/normal requests per container. Non-trivial = every crash case; distinct by the full cell.")
+	ctx.Rule("crash points enumerated completely: panic in each of 2 container / 2 service / 2 route filters before and after passing control, in the handler before / between / after its writes, in an If-condition, and (routing-failure request) in container filters and the custom error handler; x recovery {on, off} x coding {none, gzip, deflate} (container switch or route override) x provider {sync.Pool, bounded(1), custom} x entry {Dispatch, ServeHTTP} x filters writing output or not x custom/default recover handler x panic value kind {pointer, string, error, runtime error, http.ErrAbortHandler} (value kinds on the sync.Pool / no-marker slice). Monitors: recover() around the entry, recording RecoverHandler, compressor ledger, probe requests replayed after every panic, Add+Remove afterwards (needs the write lock). Then sequences of 20 mixed panicking/normal requests per container. Non-trivial = every crash case; distinct by the full cell.")
 	ctx.Assume("HandleWithFilter is excluded: the property speaks of routed dispatch",
 		"panic values are pointers so that 'the same value' is decided by identity")
 	defer restful.SetCompressorProvider(restful.NewSyncPoolCompessors())
@@ -208,7 +246,13 @@ func c10(ctx *core.Ctx) {
 										if re && (cod == "" || !routed) {
 											continue
 										}
-										cases = append(cases, c10Case{Pos: p, Routed: routed, Recovery: rec, Coding: cod, Provider: prov, Entry: entry, Markers: mk, CustomRec: cr, RouteEnc: re})
+										kinds := []string{"ptr"}
+										if !mk && prov == "syncpool" {
+											kinds = []string{"ptr", "string", "error", "runtime", "abort"}
+										}
+										for _, kind := range kinds {
+											cases = append(cases, c10Case{Pos: p, Routed: routed, Recovery: rec, Coding: cod, Provider: prov, Entry: entry, Markers: mk, CustomRec: cr, RouteEnc: re, Value: kind})
+										}
 									}
 								}
 							}
@@ -304,7 +348,7 @@ func c10One(ctx *core.Ctx, ci int, k *c10Case, seq []string) {
 				ctx.Violation(ci, "c10:normal-request-panics:"+pcell, fmt.Sprintf("a normal request panicked after earlier panics: %v", r.escaped), d)
 			}
 		} else {
-			ctx.Sig(fmt.Sprintf("%s|routed=%v|prov=%s|markers=%v|customrec=%v|routeenc=%v|seq=%v", pcell, k.Routed, k.Provider, k.Markers, k.CustomRec, k.RouteEnc, len(seq) > 1))
+			ctx.Sig(fmt.Sprintf("%s|routed=%v|prov=%s|markers=%v|customrec=%v|routeenc=%v|seq=%v|val=%s", pcell, k.Routed, k.Provider, k.Markers, k.CustomRec, k.RouteEnc, len(seq) > 1, k.Value))
 			ctx.Count("panics_injected", 1)
 			if k.Recovery {
 				if r.escaped != nil {
@@ -313,8 +357,8 @@ func c10One(ctx *core.Ctx, ci int, k *c10Case, seq []string) {
 					if k.CustomRec {
 						if env.recN != 1 {
 							ctx.Violation(ci, "c10:recover-calls:"+pcell, fmt.Sprintf("recover handler was called %d times", env.recN), d)
-						} else if pv, ok := env.recVal.(*c10Panic); !ok || pv.id != pos {
-							ctx.Violation(ci, "c10:recover-value:"+pcell, fmt.Sprintf("recover handler received %v, injected was %s", env.recVal, pos), d)
+						} else if !env.sameValue(env.recVal, pos) {
+							ctx.Violation(ci, "c10:recover-value:"+pcell, fmt.Sprintf("recover handler received %v, injected was a %s value at %s", env.recVal, k.Value, pos), d)
 						}
 					}
 					pl, err := r.plain()
@@ -327,7 +371,7 @@ func c10One(ctx *core.Ctx, ci int, k *c10Case, seq []string) {
 						if !bytes.HasSuffix(pl, []byte("RECOVERED:injected:"+pos)) {
 							ctx.Violation(ci, "c10:recover-output-lost:"+pcell, fmt.Sprintf("output of the recover handler is missing from the response: %.80q", pl), d)
 						}
-					} else if !bytes.Contains(pl, []byte("recover from panic situation: - injected:"+pos)) {
+					} else if !bytes.Contains(pl, []byte("recover from panic situation: - ")) || (k.Value != "runtime" && k.Value != "abort" && !bytes.Contains(pl, []byte("injected:"+pos))) {
 						ctx.Violation(ci, "c10:default-recover-output:"+pcell, fmt.Sprintf("default recover text missing: %.80q", pl), d)
 					}
 					// nothing written before the panic => the recover handler's status
@@ -340,9 +384,8 @@ func c10One(ctx *core.Ctx, ci int, k *c10Case, seq []string) {
 					}
 				}
 			} else {
-				pv, ok := r.escaped.(*c10Panic)
-				if !ok || pv.id != pos {
-					ctx.Violation(ci, "c10:not-propagated:"+pcell, fmt.Sprintf("recovery is off but the caller recovered %v instead of the injected value %s", r.escaped, pos), d)
+				if !env.sameValue(r.escaped, pos) {
+					ctx.Violation(ci, "c10:not-propagated:"+pcell, fmt.Sprintf("recovery is off but the caller recovered %v instead of the injected %s value at %s", r.escaped, k.Value, pos), d)
 				}
 				if env.recN != 0 {
 					ctx.Violation(ci, "c10:recover-handler-with-recovery-off:"+pcell, "recover handler ran although recovery is off", d)
